@@ -269,7 +269,7 @@ theorem opmBase_lookup_cov (m : Opm) (h : OpmWf m) (c r : String) (k : String) (
   unfold opmBase
   rw [lookup_append_of_none _ _ _ hf, lookup_append_of_none _ _ _ (kepPart_lookup_none m.kep h.kep k h2)]
 
-/-- **`load_dump_id`, OPM, KVN.**  Every well-formed OPM (one of the ten frames; Keplerian block written or not; covariance
+/-- **`load_dump_id`, OPM, KVN.**  Every well-formed OPM (any registered frame — the ten Earth-centred ones or one centred on a solar-system / JPL body or a Lagrange point; Keplerian block written or not; covariance
 absent or present in the orbit's frame, QSW or TNW; any number of maneuvers of either kind in the orbit's frame, QSW or TNW, with or
 without comment; user-defined fields absent, empty, one or many with distinct names) is read back from what the KVN writer produced:
 `kvn2dict` groups the `MAN_` lines into one dict per maneuver (a new one at each `MAN_EPOCH_IGNITION`, the comment of the line before
@@ -485,7 +485,7 @@ regenerated table) is read back from what the KVN writer produced.  The result i
 (`omm_xml_load_dump_id`): without the `Tle` object, which no reader restores; an empty user-defined dict read as none. -/
 theorem omm_kvn_load_dump_id (m : Omm) (h : OmmWf m) (hud : UdKvnWf m.ud) (htle : ommKvnNeedsTle = false ∨ m.hasTle = true) :
     (ommKvn m >>= loadOmmKvn) = .ok { m with hasTle := false, ud := normUd m.ud } := by
-  obtain ⟨c, r, hfo, -, -, -, hrf⟩ := frameOut_ok m.frame h.frame
+  obtain ⟨c, r, hfo, -, -, -, hrf⟩ := frameOut_ok_earth m.frame h.frame
   obtain ⟨hplain, hpairs, hfk, cov, hcovmem, hkeys⟩ := omm_plain_facts m h c r
   obtain ⟨hnd, hnm, hnu⟩ := ommKeys_ok cov hcovmem
   rw [← hkeys] at hnd hnm hnu
@@ -495,7 +495,7 @@ theorem omm_kvn_load_dump_id (m : Omm) (h : OmmWf m) (hud : UdKvnWf m.ud) (htle 
   have hbu := lookup_none_of_not_mem _ _ hnu
   have hcore := omm_core_kvn m h c r hrf (finalDict (ommBase m c r) (([] : List Man).map (manDictKvn m.frame)) m.ud)
     (fun k v hkv => finalDict_lookup_base _ _ _ k v (lookup_append_of_some _ _ _ _ hkv))
-  have hcov := read_cov_kvn m.frame h.frame m.cov h.cov (finalDict (ommBase m c r) (([] : List Man).map (manDictKvn m.frame)) m.ud) (by
+  have hcov := read_cov_kvn m.frame (earthFrames_sub _ h.frame) m.cov h.cov (finalDict (ommBase m c r) (([] : List Man).map (manDictKvn m.frame)) m.ud) (by
     intro k hk
     obtain ⟨-, -, h3, h4⟩ := covRead_keys_elsewhere k hk
     have hf : (ommFixed m c r).lookup k = none :=
